@@ -66,12 +66,27 @@ pub struct History {
     pub ops: Vec<Op>,
 }
 
+/// Samples of at least this size use the synthetic payload format (tag + shared filler),
+/// which the sparse stream can store as a run-length extent.
+pub const SYN_MIN: usize = 1 << 20;
+
 pub fn sample_bytes(fill: u64, size: usize) -> Vec<u8> {
+    if size >= SYN_MIN {
+        return crate::streams::synth_payload(fill, size);
+    }
     let mut v = Vec::with_capacity(size);
     for i in 0..size {
         v.push(crate::streams::fill_byte(fill, i as u64));
     }
     v
+}
+
+pub fn sample_byte_at(fill: u64, size: usize, i: u64) -> u8 {
+    if size >= SYN_MIN {
+        crate::streams::synth_byte(fill, size as u64, i)
+    } else {
+        crate::streams::fill_byte(fill, i)
+    }
 }
 
 fn track_type(kind: u8) -> TrackType {
@@ -511,7 +526,7 @@ pub fn check_structure<S: Src + ?Sized>(h: &History, out: &S, origin: u64) -> Fa
                 let hi = lo + got.size as u64;
                 if lo < mdat_lo || hi > mdat_hi {
                     push(&mut f, "sample_outside_mdat", json!({"track": tid, "sample": k + 1, "offset": lo, "size": got.size, "mdat": [mdat_lo, mdat_hi]}));
-                } else if w.size <= (1 << 20) {
+                } else if (w.size as usize) < SYN_MIN {
                     let b = out.read_at(lo, w.size as usize);
                     if b != sample_bytes(w.fill, w.size as usize) {
                         push(&mut f, "sample_bytes_at_offset", json!({"track": tid, "sample": k + 1, "offset": lo}));
@@ -520,7 +535,7 @@ pub fn check_structure<S: Src + ?Sized>(h: &History, out: &S, origin: u64) -> Fa
                     // large samples: spot-check head, tail and a few interior bytes
                     for p in [0u64, 1, 15, 16, 17, (w.size as u64) / 2, w.size as u64 - 1] {
                         let b = out.read_at(lo + p, 1);
-                        if b.first().copied() != Some(crate::streams::fill_byte(w.fill, p)) {
+                        if b.first().copied() != Some(sample_byte_at(w.fill, w.size as usize, p)) {
                             push(&mut f, "sample_bytes_at_offset", json!({"track": tid, "sample": k + 1, "offset": lo, "pos": p}));
                             break;
                         }
